@@ -460,3 +460,8 @@ def task_fault_rule(eng: Engine, ck: Check):
               + ': the task dies, the transfer keeps its transient state and its upload slot, and nothing retries it',
               construct=f'{f.qualname} faults answered')
     ck.floor('R-C04-TASKFAULT', n, 4)
+    # a download without a local path sends offset 0 and then appends to the path the naming chain picks: sound only if that path is new
+    from .c09 import free_name_rules
+    free_name_rules(eng, ck, 'R-C04-RESUME')
+    from . import defs as _d_rq
+    _d_rq.requeue_forgets_local_file(eng, ck, 'R-C04-RESUME')
